@@ -7,6 +7,9 @@ CLAIMED = {
       text="Generated-input search: every ordered pair (quick) and triple (thorough) of int8/uint8 values exhaustively, boundary-biased triples of all wider integer widths, decimal64, string, identity, enum, bool, binary, and mixed key tuples, each compared with an arbitrary-precision oracle for sign, antisymmetry, transitivity and agreement with Equal; keyed-list lookup on the reflection stores.",
       note="Trusts math/big and the harness's reading of 'numeric order'. Wider types are sampled (boundary-biased), not enumerated.", ref="7 C17"),
 }
+CLAIMED["C10"] = dict(tech="exhaustive enumeration of the boundary product + property-based testing (rapid) against an exact math/big denotation oracle",
+      text="Generated-input search: the full product of 13 scalar target formats x 14 source Go kinds x each kind's boundary value set is enumerated completely; random scalar, list and schema-typed (enum, bits, identityref, union, leafref) conversions are drawn on top. A successful conversion must denote exactly the source (big.Rat / text / truth value / element-wise); an error is always accepted.",
+      note="decimal64 is float64 in the library: 'same number' means nearest float64. Strings outside strict decimal syntax and NaN/Inf sources carry no assertion for decimal64. One open known finding (float64 -> string rounding, pinned by the suite).", ref="7 C10")
 NOT_YET = {}
 props = [json.loads(l) for l in open(os.path.join(ROOT, "properties.jsonl"))]
 checks, na = [], []
